@@ -76,8 +76,10 @@ Print Assumptions C15_cache_transparent.
    its next outsider (DJob j), goroutines of the fractions themselves (background seal, Release, loader
    removals: DStep i / DStepR i), bulks, seals, rotation, process death after ANY operation of ANY
    goroutine (DCrash), and a new process whose loader removals are again interleaved and interruptible
-   (DRestart). Several passes may be in flight. [drun_v0]: the code before 14be38b, one deletion goroutine
-   per outsider (DStep i also performs the deletion of a pushed-out fraction i). *)
+   (DRestart). Several passes may be in flight; the goroutine of a pass does nothing before every earlier
+   pass goroutine has finished (fix bd65f76). [drun_v1]: the code between 14be38b and bd65f76 (pass
+   goroutines independent of each other). [drun_v0]: the code before 14be38b, one deletion goroutine per
+   outsider (DStep i also performs the deletion of a pushed-out fraction i). *)
 
 (* All or nothing for every interleaving and every crash point: every fraction of the directory is in a
    good state (next start serves it completely or not at all, no document-bearing residue, the loader
@@ -122,17 +124,28 @@ Theorem C15_parallel_retention_prefix_eventually :
 Proof. exact par_prefix_eventually. Qed.
 Print Assumptions C15_parallel_retention_prefix_eventually.
 
-(* Not covered by the two theorems above, and refuted by the faithful model of the repaired code: TWO passes
-   in flight. A later maintenance step may start its pass goroutine while the goroutine of the previous
-   pass has not yet deleted its outsider (proxyFrac.Suicide waiting for a seal, Sealed.Suicide /
-   Active.Suicide waiting in useMu.Lock for a reader); the second goroutine then deletes a NEWER fraction
-   first; a crash at that moment leaves the older one served next to the deleted newer one.
-   (runMaintenanceLoop waits for suicideWG only when the manager stops.) Reported as a candidate. *)
-Theorem C15_parallel_retention_overlapping_passes_refuted :
+(* ANY NUMBER of passes in flight (the code after fix bd65f76: the goroutine of a pass first waits for the
+   goroutine of the previous pass): a directory of clean fractions with documents, any events that start a
+   pass (any k each time) or let a goroutine perform an operation - a Suicide blocked by a reader or by a
+   seal is a pass goroutine that is not scheduled -, a crash after any operation, a complete restart: the
+   fractions no longer served are a prefix of the creation order, and every fraction is settled. *)
+Theorem C15_retention_prefix_any_number_of_passes :
+  forall sorted evs d0, Forall (fun s => clean sorted s = true) d0 ->
+    prefix_shape (map alive (after_crashed_passes sorted evs d0)) = true
+    /\ Forall (fun s => settled s = true) (after_crashed_passes sorted evs d0).
+Proof. exact par_prefix_any_passes. Qed.
+Print Assumptions C15_retention_prefix_any_number_of_passes.
+
+(* ---- the code between 14be38b and bd65f76 (pass goroutines independent of each other), kept as _v1 *)
+
+(* TWO passes in flight: the goroutine of the first pass has not yet deleted its outsider (waiting for a
+   reader / a seal), the goroutine of the second pass deletes a NEWER fraction first; a crash at that moment
+   leaves the older one served next to the deleted newer one (replayed on the real code before the repair:
+   known_findings.txt, fixed: bd65f76; regression class retention-overlap-older-served-newer-gone). *)
+Example C15_parallel_retention_overlapping_passes_v1_refuted :
   exists sorted evs d0, Forall (fun s => clean sorted s = true) d0 /\
-    prefix_shape (map alive (restart_all sorted (map crash1 (d_fr (drun sorted evs (mkd true d0 [])))))) = false.
-Proof. exact par_overlapping_passes_refuted. Qed.
-Print Assumptions C15_parallel_retention_overlapping_passes_refuted.
+    prefix_shape (map alive (restart_all sorted (map crash1 (d_fr (drun_v1 sorted evs (mkd true d0 [])))))) = false.
+Proof. exact par_overlapping_passes_v1_refuted. Qed.
 
 (* ---- the code before fix 14be38b (one goroutine per outsider), kept as _v0 *)
 
@@ -334,6 +347,17 @@ Proof.
   - destruct (exists_reachable cur_progs true (fun t => st_eqb t clean_active)) as [s [Hr Hp]]; [vm_compute; reflexivity|].
     apply st_eqb_true in Hp. subst. exact Hr.
 Qed.
+
+(* two passes in flight: the second pass goroutine (DJob 1) is held back until the first has deleted its
+   outsider; in the _v1 code it ran at once *)
+Example C15_nonvacuous_passes :
+  map alive (after_crashed_passes true [DPass 1; DPass 1; DJob 1; DJob 1; DJob 1] [clean_sealed true; clean_sealed true; clean_active])
+    = [true; true; true]
+  /\ map alive (restart_all true (map crash1 (d_fr (drun_v1 true [DPass 1; DPass 1; DJob 1; DJob 1; DJob 1]
+                  (mkd true [clean_sealed true; clean_sealed true; clean_active] []))))) = [true; false; true]
+  /\ map alive (after_crashed_passes true [DPass 1; DPass 1; DJob 0; DJob 0; DJob 1; DJob 0; DJob 0; DJob 0; DJob 0; DJob 0; DJob 0; DJob 0; DJob 1; DJob 1]
+                  [clean_sealed true; clean_sealed true; clean_active]) = [false; false; true].
+Proof. repeat split; vm_compute; reflexivity. Qed.
 
 (* a reader holds a provider while the deletion is requested: nothing happens until it is released *)
 Example C15_nonvacuous_use :
